@@ -81,6 +81,10 @@ def build_message(m):
             msg.add_attachment(data.decode("utf-8"), subtype=subtype, filename=a["name"])
         else:
             msg.add_attachment(data, maintype=maintype, subtype=subtype, filename=a["name"])
+    if m.get("attachment_first") and msg.is_multipart() and msg.get_content_subtype() == "mixed" and len(msg.get_payload()) >= 2:
+        # the order of the parts of multipart/mixed is the sender's choice: some clients put the attachments in front of the body
+        parts = msg.get_payload()
+        msg.set_payload(parts[1:] + parts[:1])
     if m.get("forward"):
         # a forwarded mail attached as message/rfc822 (no file name): its text is the attachment's, not this message's body
         inner = EmailMessage()
@@ -402,7 +406,7 @@ def messages(draw, idx=0):
         "message_id": f"<vf-{draw(st.integers(1, 10**9))}-{idx}@mail.example.org>", "in_reply_to": draw(st.sampled_from([None, "<parent-1@example.org>"])),
         "plain": plain, "html": html, "structure": structure, "attachments": atts,
         # the sender of the mbox separator line need not be an address: MAILER-DAEMON (what mailbox.mbox writes), "-" (Thunderbird), a bare user name
-        "fold_subject": draw(st.booleans()), "forward": draw(st.integers(0, 5)) == 0,
+        "fold_subject": draw(st.booleans()), "forward": draw(st.integers(0, 5)) == 0, "attachment_first": draw(st.integers(0, 3)) == 0,
         "envelope": draw(st.sampled_from(["sender@example.org", "sender@example.org", "MAILER-DAEMON", "-", "nobody", "root"])),
     }
 
